@@ -746,8 +746,8 @@ def extra_phase(pid, tier, seed):
         env["ASAN_OPTIONS"] = "detect_leaks=0:abort_on_error=0"
         env["VERIF_INPROC_DIR"] = d
         fs = (seed * 977 + i * 31 + 5) % 2 ** 31 or 1
-        procs.append((d, subprocess.Popen([binary, "-runs=%d" % runs, "-max_len=400", "-seed=%d" % fs, "-artifact_prefix=" + d + "/",
-                                           "-print_final_stats=1", "-timeout=30", corp], stdout=subprocess.DEVNULL, stderr=subprocess.PIPE, env=env)))
+        procs.append((d, vc.Proc([binary, "-runs=%d" % runs, "-max_len=400", "-seed=%d" % fs, "-artifact_prefix=" + d + "/",
+                                  "-print_final_stats=1", "-timeout=30", corp], env=env)))
     for d, p in procs:
         err = p.communicate()[1].decode("latin-1")
         for ln in err.splitlines():
